@@ -109,6 +109,10 @@ theorem decl_arms_agree :
 theorem model_functions_pinned :
     (ParseWhitelist.pinnedFuncs.all fun p => forkFuncs.any fun f => f.1 == p.1 && f.2.1 == p.2) = true := by decide
 
+/-- every function of the fork's parser has the committed token text (golden table) -/
+theorem all_parse_functions_pinned :
+    forkFuncs.map (fun f => (f.1, f.2.1)) = ParseWhitelist.allFuncs := by decide
+
 /-! ### precedence tables -/
 
 /-- **precedence_equal**: the fork's tokPrec is token-identical to the reference's, calls go/token's Precedence,
